@@ -176,6 +176,22 @@ func (fr *Frame) stdlibCall(in *ssa.Call, callee *ssa.Function, args []*GVal) *G
 	return fr.havocResult(in.Type(), callee.Name())
 }
 
+func (fr *Frame) stdlibDispatch(in *ssa.Call, callee *ssa.Function, args []*GVal) *GVal {
+	name := callee.String()
+	if callee.Pkg != nil {
+		name = callee.Pkg.Pkg.Path() + "." + callee.Name()
+		if recv := callee.Signature.Recv(); recv != nil {
+			name = callee.String()
+		}
+	}
+	if fr.fn.Pkg != nil && fr.fn.Pkg == fr.ex.p.mainPkg {
+		if g, ok := fr.cmdCall(in, name, args); ok {
+			return g
+		}
+	}
+	return fr.stdlibCall(in, callee, args)
+}
+
 func errType() types.Type { return types.Universe.Lookup("error").Type() }
 
 // bytes.Buffer is modelled as a Str: struct sort S_bytes_Buffer is replaced by a string content cell.
